@@ -806,7 +806,7 @@ func (c *Ctx) condShape(cond ssa.Value, d int) string {
 	if call, ok := cv.(*ssa.Call); ok && d < 6 {
 		if sc := call.Call.StaticCallee(); sc != nil && sc.Blocks != nil && PkgPathOf(sc) == PkgPathOf(call.Parent()) && len(sc.Blocks) <= 12 &&
 			sc.Signature.Results().Len() == 1 && types.Identical(sc.Signature.Results().At(0).Type().Underlying(), types.Typ[types.Bool]) &&
-			funcShort(sc) != "(*filters/encrypt.Filter).ignore" {
+			funcShort(sc) != "(*filters/encrypt.Filter).ignore" && funcShort(sc) != "(*filters/encrypt.trackedMaps).isTracked" {
 			var shapes []string
 			for _, ret := range Returns(sc) {
 				rv := RetVals(ret)
@@ -874,6 +874,12 @@ func skipShape(at Atom) string {
 		return "errors.Is"
 	case at.Op == "true" && at.L.Op == "Extract" && at.L.Name == "1" && at.L.Args[0].Op == "Lookup" && at.L.Args[0].Args[0].Is("Field", "filteredFields"):
 		return "tracked-filtered-field"
+	case at.Op == "true" && at.L.Is("Call", "(*filters/encrypt.trackedMaps).isTracked") && len(at.L.Args) == 2 && at.L.Args[0].IsParam("0:maps") && at.L.Args[1].Is("Call", "(reflect.Value).Pointer"):
+		return "tracked-separately"
+	case at.Op == "true" && at.L.Op == "Extract" && at.L.Name == "1" && at.L.Args[0].Is("Call", "(*filters/encrypt.trackedMaps).getTracked") &&
+		len(at.L.Args[0].Args) == 2 && at.L.Args[0].Args[0].IsParam("0:maps") && at.L.Args[0].Args[1].Is("Call", "(reflect.Value).Pointer"):
+		// the value is a map tracked in THIS set: the sweep visits it on its own, with its record of filtered fields
+		return "tracked-separately"
 	}
 	return "other:" + at.String()
 }
@@ -962,7 +968,7 @@ func (c *Ctx) ruleGatedReset(rule string) {
 					if bo.Op == token.NEQ {
 						edge = fs
 					}
-					if !(edge == d || edge.Dominates(in.Block())) {
+					if !edgeDominates(d.Idom(), edge, in.Block()) {
 						continue
 					}
 					if match(tb.Of(bo.X), tb.Of(bo.Y)) || match(tb.Of(bo.Y), tb.Of(bo.X)) {
@@ -1000,7 +1006,7 @@ func (c *Ctx) ruleGatedReset(rule string) {
 							if bo.Op == token.NEQ {
 								edge = fs
 							}
-							if !(edge == d || edge.Dominates(ci.Block())) {
+							if !edgeDominates(d.Idom(), edge, ci.Block()) {
 								continue
 							}
 							l, rr := gtb.Of(bo.X), gtb.Of(bo.Y)
@@ -1732,9 +1738,18 @@ func (c *Ctx) ruleGatedDiscard(rule string) {
 				if n == "(*container/list.List).Remove" || n == "builtin delete" {
 					removal = true
 				}
+				// the removal may live in a package-local helper or closure that is deferred
+				if callee := deferTarget(&x.Call); callee != nil && PkgPathOf(callee) == PkgGated &&
+					(c.mayReachCallee(callee, "(*container/list.List).Remove", map[*ssa.Function]bool{}) || hasDelete(callee)) {
+					removal = true
+				}
 			case *ssa.Call:
 				n := calleeName(&x.Call)
 				if n == "(*container/list.List).Remove" || n == "builtin delete" {
+					removal = true
+				}
+				if callee := x.Call.StaticCallee(); callee != nil && callee != fn && PkgPathOf(callee) == PkgGated && callee.Blocks != nil &&
+					c.mayReachCallee(callee, "(*container/list.List).Remove", map[*ssa.Function]bool{}) {
 					removal = true
 				}
 				if strings.HasSuffix(n, ".Send") && strings.Contains(n, "invoke") {
@@ -1805,5 +1820,505 @@ func (c *Ctx) ruleListOps(rule string) {
 	}
 	if n < 6 {
 		r.Und(rule, "instance-floor", "", fmt.Sprintf("only %d list operations found in package gated (>= 6 confirmed by hand)", n))
+	}
+}
+
+// ruleMutationSinks (C10.sinks): shape preservation rests on WHICH reflective
+// mutations the filter can perform at all. Inventory of every call, in package
+// encrypt, of a reflect.Value method that mutates (Set*, and reflect.Append /
+// Copy / MakeMapWithSize style growth) and of pointerstructure.Set:
+//   - SetString / SetBytes occur only in setValue, each under its own type test
+//     (string / []byte): only string-like leaves are ever rewritten;
+//   - Set occurs only to fill a freshly created addressable copy (reflect.New(T).Elem());
+//   - SetMapIndex occurs only in processUnfiltered, with a key taken from the very map
+//     being iterated (no key added) and a value that is not the zero reflect.Value
+//     (which would delete the key);
+//   - nothing else (SetLen, SetInt, Append, ...) exists.
+func (c *Ctx) ruleMutationSinks() {
+	p, r := c.P, c.R
+	const rule = "C10.sinks"
+	n := 0
+	for _, f := range p.FuncsIn(PkgEncrypt) {
+		if strings.Contains(PkgPathOf(f), "/testing/") {
+			continue
+		}
+		tb := p.NewTerms(nil)
+		eachInstr(f, func(in ssa.Instruction) {
+			ci, ok := in.(ssa.CallInstruction)
+			if !ok {
+				return
+			}
+			sc := ci.Common().StaticCallee()
+			if sc == nil || sc.Pkg == nil {
+				return
+			}
+			name := ""
+			switch {
+			case sc.Pkg.Pkg.Path() == "reflect" && sc.Signature.Recv() != nil && typeShort(sc.Signature.Recv().Type()) == "reflect.Value" && strings.HasPrefix(sc.Name(), "Set"):
+				name = sc.Name()
+			case sc.Pkg.Pkg.Path() == "reflect" && sc.Signature.Recv() == nil && (sc.Name() == "Append" || sc.Name() == "AppendSlice" || sc.Name() == "Copy"):
+				name = "reflect." + sc.Name()
+			case sc.String() == "github.com/mitchellh/pointerstructure.Set":
+				name = "pointerstructure.Set"
+			default:
+				return
+			}
+			n++
+			fn := p.ShortFn(f)
+			construct := fn + "->" + name
+			args := ci.Common().Args
+			switch name {
+			case "SetString", "SetBytes":
+				okIn := fn == "filters/encrypt.setValue"
+				// dominated by the matching type test
+				want := map[string]string{"SetString": "string", "SetBytes": "[]uint8"}[name]
+				okT := false
+				for d := in.Block(); d != nil && d.Idom() != nil; d = d.Idom() {
+					cc, ts, _ := condOf(d.Idom())
+					if cc == nil || !edgeDominates(d.Idom(), ts, in.Block()) {
+						continue
+					}
+					at := p.atomOf(cc, func(v ssa.Value) ssa.Value { return v }, nil, nil)
+					if at.Neg {
+						continue
+					}
+					if tf := typeFact(at); tf == "type=="+want {
+						okT = true
+					}
+					// the test may be stored in a boolean first (isString := ftype == ...)
+					if at.Op == "true" {
+						if bo, ok := at.L.V.(*ssa.BinOp); ok && bo.Op == token.EQL {
+							a2 := p.atomOf(bo, func(v ssa.Value) ssa.Value { return v }, nil, nil)
+							if tf := typeFact(a2); tf == "type=="+want {
+								okT = true
+							}
+						}
+					}
+				}
+				r.Check(okIn && okT, rule, construct, p.InstrPos(in), name+" only in setValue, under the test that the value's type is "+want, name+" outside setValue or not under the test type == "+want+": a value of another kind could be rewritten")
+			case "Set":
+				dst := tb.Of(args[0])
+				fresh := dst.Find(func(x *Term) bool { return x.Is("Call", "reflect.New") }) != nil
+				r.Check(fresh, rule, construct, p.InstrPos(in), "Set only fills a freshly created addressable copy", "reflect.Value.Set on "+dst.String()+", which is not a freshly created copy (reflect.New(T).Elem()): an arbitrary value of the payload could be replaced")
+			case "SetMapIndex":
+				okIn := fn == "(*filters/encrypt.trackedMaps).processUnfiltered"
+				key := tb.Of(args[1])
+				okKey := key.Find(func(x *Term) bool {
+					return x.Is("Call", "(reflect.Value).MapKeys") || x.Is("Call", "(*reflect.MapIter).Key")
+				}) != nil
+				val := tb.Of(args[2])
+				notZero := !(val.Op == "Const" || val.Is("Alloc", "") && strings.HasPrefix(val.Name, "reflect.Value")) || val.Op == "Phi"
+				if al, isAl := args[2].(*ssa.UnOp); isAl {
+					if cell, ok := al.X.(*ssa.Alloc); ok && len(nonDebugRefs(cell)) == 1 {
+						notZero = false // a zero reflect.Value{} literal
+					}
+				}
+				r.Check(okIn && okKey && notZero, rule, construct, p.InstrPos(in), "SetMapIndex(key of the iterated map, non-zero value): keys are neither added nor deleted", fmt.Sprintf("SetMapIndex in-processUnfiltered=%v key-from-the-map=%v (%s) non-zero-value=%v: a key could be added or deleted", okIn, okKey, key, notZero))
+			case "pointerstructure.Set":
+				r.Check(fn == "(*filters/encrypt.Filter).filterValue", rule, construct, p.InstrPos(in), "write-back through the tag pointer only in filterValue", "pointerstructure.Set outside filterValue")
+			default:
+				r.Bad(rule, construct, p.InstrPos(in), "reflective mutation "+name+" is not one of the confirmed primitives (SetString/SetBytes in setValue, Set into a fresh copy, SetMapIndex on existing keys): lengths, keys or non-string values could change")
+			}
+		})
+	}
+	if n < 10 {
+		r.Und(rule, "instance-floor", "", fmt.Sprintf("only %d reflective mutation sites found (10 confirmed by hand)", n))
+	}
+}
+
+// deferTarget: the function a deferred call runs (static callee or closure).
+func deferTarget(cc *ssa.CallCommon) *ssa.Function {
+	if sc := cc.StaticCallee(); sc != nil {
+		return sc
+	}
+	if mc, ok := cc.Value.(*ssa.MakeClosure); ok {
+		if f, ok := mc.Fn.(*ssa.Function); ok {
+			return f
+		}
+	}
+	return nil
+}
+
+func hasDelete(f *ssa.Function) bool {
+	found := false
+	eachInstr(f, func(in ssa.Instruction) {
+		if ci, ok := in.(ssa.CallInstruction); ok {
+			if b, ok := ci.Common().Value.(*ssa.Builtin); ok && b.Name() == "delete" {
+				found = true
+			}
+		}
+	})
+	return found
+}
+
+// ruleGatedInsert (C11.insert): a group is opened for an id only when the id has
+// no group: every assignment into Filter.gated is dominated by the not-found edge
+// of a lookup of the same key in the same map, and by nothing weaker (no "or it
+// has expired", "or it is too large"). Overwriting the entry of a live group
+// leaves the old group in the list without its map entry; its later removal then
+// deletes the NEW group's entry by id, and events are orphaned.
+func (c *Ctx) ruleGatedInsert(rule string) {
+	p, r := c.P, c.R
+	n := 0
+	for _, f := range p.FuncsIn(PkgGated) {
+		tb := p.NewTerms(nil)
+		eachInstr(f, func(in ssa.Instruction) {
+			mu, ok := in.(*ssa.MapUpdate)
+			if !ok || !tb.Of(mu.Map).Is("Field", "gated") {
+				return
+			}
+			n++
+			keyS := tb.Of(mu.Key).String()
+			okDom := false
+			for b := in.Block(); b != nil && b.Idom() != nil; b = b.Idom() {
+				cond, _, fsucc := condOf(b.Idom())
+				ex, isEx := cond.(*ssa.Extract)
+				if !isEx || ex.Index != 1 {
+					continue
+				}
+				lk, isLk := ex.Tuple.(*ssa.Lookup)
+				if isLk && tb.Of(lk.X).Is("Field", "gated") && tb.Of(lk.Index).String() == keyS && edgeDominates(b.Idom(), fsucc, in.Block()) {
+					okDom = true
+				}
+			}
+			r.Check(okDom, rule, p.ShortFn(f)+":open-group", p.InstrPos(in), "a group is opened only on the not-found edge of a lookup of the same id", "the id map is assigned at a point that is not dominated by `_, ok := w.gated[id]; !ok` for the same id: an existing group's entry can be overwritten while the group stays in the list (its events are later orphaned or the new group's entry deleted by id)")
+		})
+	}
+	if n < 1 {
+		r.Und(rule, "instance-floor", "", "no assignment into Filter.gated found")
+	}
+}
+
+// ruleNamePattern (C15.pattern): "rotated files carry the base name plus a
+// timestamp" and "files outside the sink's own name space are never removed"
+// both rest on fileNamePattern: on every path it returns
+// strings.TrimSuffix(FileName, ext) + "-%s" + ext with the same ext in both
+// places, ext being filepath.Ext(FileName) when that is non-empty and ".log"
+// otherwise. (TrimRight/Trim treat ext as a character set and eat into the stem;
+// a different separator changes both the names and the pruning glob.)
+func (c *Ctx) ruleNamePattern() {
+	p, r := c.P, c.R
+	const rule = "C15.pattern"
+	fn := c.Fn(rule, PkgRoot, "FileSink", "fileNamePattern")
+	if fn == nil {
+		return
+	}
+	n := 0
+	for _, pa := range c.enum(rule, fn, PathOpts{Inline: inlineSmall()}) {
+		rv := pa.RetVals()
+		if rv == nil {
+			continue
+		}
+		n++
+		t := pa.TermsAt(pa.LastStep()).Of(rv[0])
+		ok := t.Op == "Bin" && t.Name == "+" && len(t.Args) == 2 && t.Args[0].Op == "Bin" && t.Args[0].Name == "+" && t.Args[0].Args[1].Is("Const", `"-%s"`)
+		why := ""
+		if ok {
+			ext := t.Args[1]
+			stem := t.Args[0].Args[0]
+			ok = stem.Is("Call", "strings.TrimSuffix") && len(stem.Args) == 2 && stem.Args[0].Is("Field", "FileName") && stem.Args[0].Args[0].IsParam("0:fs") && stem.Args[1].String() == ext.String()
+			if ok {
+				isExt := ext.Is("Call", "path/filepath.Ext") && ext.Args[0].Is("Field", "FileName")
+				empty, found := hasAtom(pa, func(at Atom) bool {
+					return at.Op == "eq" && at.L.Is("Call", "path/filepath.Ext") && at.R.Is("Const", `""`)
+				})
+				switch {
+				case isExt && found && !empty:
+				case ext.Is("Const", `".log"`) && found && empty:
+				default:
+					ok = false
+					why = "the extension used is " + ext.String() + " on a path where filepath.Ext(FileName) is " + map[bool]string{true: "empty", false: "non-empty"}[empty]
+				}
+			} else {
+				why = "the stem is " + stem.String() + ", not strings.TrimSuffix(fs.FileName, <the same extension>)"
+			}
+		} else {
+			why = "the pattern is " + t.String()
+		}
+		r.Check(ok, rule, "fileNamePattern", p.InstrPos(pa.End), "TrimSuffix(FileName, ext) + \"-%s\" + ext with ext = filepath.Ext(FileName) or \".log\"", "fileNamePattern does not build <stem>-%s<ext> from the file name: "+why)
+	}
+	if n < 2 {
+		r.Und(rule, "fileNamePattern", p.Pos(fn.Pos()), fmt.Sprintf("%d returning paths (2 expected: with and without an extension)", n))
+	}
+}
+
+// ruleOptionsForwarded (C16.forward): below Process the per-event key material
+// travels in the variadic options. Every walker hands its own `opt` parameter on
+// to the value operations it calls — unchanged, extended by appends, or with
+// elements removed by slicing `opt` itself — and never a freshly built list (which
+// silently loses whichever per-event option the rebuild forgets).
+func (c *Ctx) ruleOptionsForwarded() {
+	p, r := c.P, c.R
+	const rule = "C16.forward"
+	targets := map[string]bool{
+		"(*filters/encrypt.Filter).filterValue": true, "(*filters/encrypt.Filter).filterSlice": true, "(*filters/encrypt.Filter).filterField": true,
+		"(*filters/encrypt.Filter).filterTaggable": true, "(*filters/encrypt.trackedMaps).processUnfiltered": true,
+		"(*filters/encrypt.Filter).encrypt": true, "(*filters/encrypt.Filter).hmacSha256": true,
+	}
+	n := 0
+	for _, f := range p.FuncsIn(PkgEncrypt) {
+		if !targets[p.ShortFn(f)] && p.ShortFn(f) != "filters/encrypt.setValue" {
+			continue
+		}
+		var optParam *ssa.Parameter
+		for _, prm := range f.Params {
+			if prm.Name() == "opt" && strings.HasSuffix(types.TypeString(prm.Type(), shortQual), "[]encrypt.Option") {
+				optParam = prm
+			}
+		}
+		if optParam == nil {
+			continue
+		}
+		var derives func(v ssa.Value, seen map[ssa.Value]bool) bool
+		derives = func(v ssa.Value, seen map[ssa.Value]bool) bool {
+			if seen[v] {
+				return true
+			}
+			seen[v] = true
+			switch x := v.(type) {
+			case *ssa.Parameter:
+				return x == optParam
+			case *ssa.Phi:
+				for _, e := range x.Edges {
+					if !derives(e, seen) {
+						return false
+					}
+				}
+				return true
+			case *ssa.Slice:
+				return derives(x.X, seen)
+			case *ssa.Call:
+				if b, ok := x.Call.Value.(*ssa.Builtin); ok && b.Name() == "append" {
+					return derives(x.Call.Args[0], seen)
+				}
+			}
+			return false
+		}
+		eachInstr(f, func(in ssa.Instruction) {
+			ci, ok := in.(ssa.CallInstruction)
+			if !ok || !targets[calleeName(ci.Common())] {
+				return
+			}
+			args := ci.Common().Args
+			last := args[len(args)-1]
+			if !strings.HasSuffix(types.TypeString(last.Type(), shortQual), "[]encrypt.Option") {
+				return
+			}
+			n++
+			r.Check(derives(last, map[ssa.Value]bool{}), rule, p.ShortFn(f)+"->"+calleeName(ci.Common()), p.InstrPos(in), "the walker's own options are handed on (unchanged, appended to, or sliced)", "the options handed to "+calleeName(ci.Common())+" are "+p.NewTerms(nil).Of(last).String()+", not derived from this function's own opt parameter: a per-event wrapper, salt or info can be lost on the way down, and the value is then protected with the filter's key material instead")
+		})
+	}
+	if n < 12 {
+		r.Und(rule, "instance-floor", "", fmt.Sprintf("only %d forwarding call sites found (>= 12 confirmed by hand)", n))
+	}
+}
+
+// ruleNoResweep (C10.resweep): a map that is tracked on its own — a tag pointer led
+// into it, so it carries the record of which of its fields were already filtered
+// (including public ones, which must stay as they are) — is never swept a second
+// time through its parent: in processUnfiltered the nested-map arm builds a fresh
+// tracking set for the value only on the not-tracked edge of
+// maps.getTracked(<that value>.Pointer()). Sweeping it from the parent with a fresh
+// set forgets the record and redacts public and already encrypted fields.
+func (c *Ctx) ruleNoResweep() {
+	p, r := c.P, c.R
+	const rule = "C10.resweep"
+	fn := c.Fn(rule, PkgEncrypt, "trackedMaps", "processUnfiltered")
+	if fn == nil {
+		return
+	}
+	tb := p.NewTerms(nil)
+	n := 0
+	for _, ci := range callsTo(fn, func(nm string, cc *ssa.CallCommon) bool { return nm == "filters/encrypt.newTrackedMaps" }) {
+		arg := tb.Of(ci.Common().Args[0])
+		if arg.Op != "Varargs" || len(arg.Args) == 0 {
+			continue // an empty set (struct arm): nothing is swept through it directly
+		}
+		n++
+		ok := false
+		in := ci.(ssa.Instruction)
+		for b := in.Block(); b != nil && b.Idom() != nil; b = b.Idom() {
+			cond, _, fsucc := condOf(b.Idom())
+			var gt *ssa.Call
+			if ex, isEx := cond.(*ssa.Extract); isEx && ex.Index == 1 {
+				gt, _ = ex.Tuple.(*ssa.Call)
+			} else if cl, isCall := cond.(*ssa.Call); isCall {
+				gt = cl
+			}
+			if gt == nil || !edgeDominates(b.Idom(), fsucc, in.Block()) {
+				continue
+			}
+			if n := calleeName(&gt.Call); n != "(*filters/encrypt.trackedMaps).getTracked" && n != "(*filters/encrypt.trackedMaps).isTracked" {
+				continue
+			}
+			pt := tb.Of(gt.Call.Args[1])
+			if tb.Of(gt.Call.Args[0]).IsParam("0:maps") && pt.Is("Call", "(reflect.Value).Pointer") {
+				ok = true
+			}
+		}
+		r.Check(ok, rule, "processUnfiltered:nested-map", p.InstrPos(in), "a nested map is swept through its parent only when it is not tracked on its own", "a nested map value is swept with a fresh tracking set without first testing maps.getTracked(value.Pointer()): when a tag pointer led into that map, the record of its already filtered fields is ignored and public / encrypted / hmac-ed fields are redacted")
+	}
+	if n < 1 {
+		r.Und(rule, "instance-floor", "", "no nested-map sweep found in processUnfiltered")
+	}
+}
+
+// ruleMarkFiltered (C09.mark): a key is marked "already filtered" only in the map
+// that directly holds the filtered value: every markFieldFiltered call is made on the
+// tracking record obtained for the map the pointer's parent path resolves to (or the
+// Taggable itself for a one-level pointer), with the LAST path segment as the key.
+// Marking a key of an ancestor map hides everything else below that key from the
+// sweep — unclassified siblings in the intermediate maps leave in plaintext.
+func (c *Ctx) ruleMarkFiltered() {
+	p, r := c.P, c.R
+	const rule = "C09.mark"
+	n := 0
+	for _, f := range p.FuncsIn(PkgEncrypt) {
+		tb := p.NewTerms(nil)
+		for _, ci := range callsTo(f, func(nm string, cc *ssa.CallCommon) bool { return nm == "(*filters/encrypt.tMap).markFieldFiltered" }) {
+			n++
+			key := tb.Of(ci.Common().Args[1])
+			// key = segs[len(segs)-1]
+			okKey := key.Op == "Index" && len(key.Args) == 2 && key.Args[1].Op == "Bin" && key.Args[1].Name == "-" &&
+				key.Args[1].Args[0].Is("Call", "builtin len") && key.Args[1].Args[0].Args[0].V == key.Args[0].V && key.Args[1].Args[1].Is("Const", "1") &&
+				key.Args[0].Is("Call", "strings.Split")
+			// receiver = getTracked(ptr)#0 with ptr the Pointer() of either the Taggable or of Get(taggable, Join(segs[:len-1]))
+			recv := tb.Of(ci.Common().Args[0])
+			okRecv := recv.Op == "Extract" && recv.Name == "0" && recv.Args[0].Is("Call", "(*filters/encrypt.trackedMaps).getTracked")
+			if okRecv {
+				ptr := recv.Args[0].Args[1]
+				okRecv = ptr.Is("Call", "(reflect.Value).Pointer")
+				if okRecv {
+					src := ptr.Args[0]
+					direct := src.Is("Call", "reflect.ValueOf") && src.Args[0].Op == "Param"
+					viaGet := src.Is("Call", "reflect.ValueOf") && src.Args[0].Op == "Extract" && src.Args[0].Args[0].Is("Call", "github.com/mitchellh/pointerstructure.Get") &&
+						src.Args[0].Args[0].Args[1].Is("Call", "strings.Join") && src.Args[0].Args[0].Args[1].Find(func(x *Term) bool { return x.Op == "Slice" && x.Args[0].V == key.Args[0].V }) != nil
+					okRecv = direct || viaGet
+				}
+			}
+			r.Check(okKey && okRecv, rule, p.ShortFn(f)+"->markFieldFiltered", p.InstrPos(ci), "the last path segment is marked in the record of the map that directly holds the value", fmt.Sprintf("markFieldFiltered(%s) on %s: not the last pointer segment in the record of the map the parent path resolves to — a key of an ancestor map would be skipped by the sweep together with every unclassified value below it", key, recv))
+		}
+	}
+	if n < 2 {
+		r.Und(rule, "instance-floor", "", fmt.Sprintf("only %d markFieldFiltered calls found (2 confirmed by hand)", n))
+	}
+}
+
+// ruleFormatTableWrites (C19.table / C14): bytes handed out by Event.Format stay
+// what they were: nothing writes through a slice loaded from Event.Formatted, and no
+// append or copy targets such a slice (append into spare capacity rewrites bytes a
+// sink of another pipeline may be writing out at that moment). Entries are only
+// ever replaced by MapUpdate.
+func (c *Ctx) ruleFormatTableWrites(rule string) {
+	p, r := c.P, c.R
+	n := 0
+	for _, f := range p.Funcs {
+		if p.InCtl(f) {
+			continue
+		}
+		tb := p.NewTerms(nil)
+		fromTable := func(v ssa.Value) bool {
+			t := tb.Of(v)
+			return t.Find(func(x *Term) bool {
+				return x.Op == "Lookup" && len(x.Args) == 2 && x.Args[0].Is("Field", "Formatted")
+			}) != nil
+		}
+		eachInstr(f, func(in ssa.Instruction) {
+			switch x := in.(type) {
+			case *ssa.Lookup:
+				if tb.Of(x.X).Is("Field", "Formatted") {
+					n++
+				}
+			case *ssa.Store:
+				if ia, ok := x.Addr.(*ssa.IndexAddr); ok && fromTable(ia.X) {
+					r.Bad(rule, p.ShortFn(f)+":write-through", p.InstrPos(in), "a byte of a slice taken from Event.Formatted is overwritten in place")
+				}
+			case *ssa.Call:
+				if b, ok := x.Call.Value.(*ssa.Builtin); ok && (b.Name() == "append" || b.Name() == "copy") && len(x.Call.Args) > 0 && fromTable(x.Call.Args[0]) {
+					r.Bad(rule, p.ShortFn(f)+":"+b.Name()+"-into-entry", p.InstrPos(in), b.Name()+" targets a slice taken from Event.Formatted ("+tb.Of(x.Call.Args[0]).String()+"): it can rewrite the bytes of the entry in place while a sink of another pipeline, which obtained them from Format, is still writing them out")
+				}
+			}
+		})
+	}
+	if n < 1 {
+		r.Und(rule, "instance-floor", "", "no lookup of Event.Formatted found")
+	} else {
+		r.Ok(rule, "Event.Formatted:entries", "", fmt.Sprintf("%d lookups; no write through, append into or copy onto an entry", n))
+	}
+}
+
+// ruleReopenNilPaths (C20.all): Broker.Reopen returns nil only after walking the
+// graphs: every nil-returning path ranges over Broker.graphs (taking the snapshot)
+// and passes through the loop that reopens them. A guard that returns nil earlier
+// ("another Reopen is running", "nothing changed") leaves nodes unreopened and
+// failures unreported.
+func (c *Ctx) ruleReopenNilPaths(fn *ssa.Function, reopenCall ssa.CallInstruction) {
+	p, r := c.P, c.R
+	const rule = "C20.all"
+	hdr := innermostHeader(reopenCall.Block())
+	nNil := 0
+	for _, pa := range c.enum(rule, fn, PathOpts{}) {
+		rv := pa.RetVals()
+		if rv == nil || !isNilConst(rv[0]) {
+			continue
+		}
+		nNil++
+		ranged, looped := false, false
+		for _, s := range pa.Steps {
+			if rg, ok := s.In.(*ssa.Range); ok && pa.TermsAt(s).Of(rg.X).Is("Field", "graphs") {
+				ranged = true
+			}
+		}
+		for _, b := range pa.Blocks {
+			if b == hdr {
+				looped = true
+			}
+		}
+		if !ranged || !looped {
+			r.Bad(rule, "(*Broker).Reopen:nil-without-walk", p.InstrPos(pa.End), "Reopen returns nil on a path that never walks the registered graphs: "+p.PathSummary(pa))
+			return
+		}
+	}
+	r.Check(nNil >= 1, rule, "(*Broker).Reopen:nil-paths", p.Pos(fn.Pos()), fmt.Sprintf("%d nil-returning paths, each through the snapshot of all graphs and the reopen loop", nNil), "no nil-returning path of Broker.Reopen found")
+}
+
+// rulePointerValues (C10.ptrvalue): the sweep of a map dereferences pointer values
+// before looking at them. What it stores back must have the representation the map
+// held: for every SetMapIndex in processUnfiltered the stored value is chosen between
+// a plain and a pointer form (value.Addr(), or reflect.ValueOf(&T{...})) — otherwise a
+// map[string]*string makes reflect panic ("value of type string is not assignable to
+// type *string") and a map[string]interface{} silently changes the dynamic type of
+// its entry from *T to T.
+func (c *Ctx) rulePointerValues() {
+	p, r := c.P, c.R
+	const rule = "C10.ptrvalue"
+	fn := c.Fn(rule, PkgEncrypt, "trackedMaps", "processUnfiltered")
+	if fn == nil {
+		return
+	}
+	tb := p.NewTerms(nil)
+	n := 0
+	for _, ci := range callsTo(fn, func(nm string, cc *ssa.CallCommon) bool { return nm == "(reflect.Value).SetMapIndex" }) {
+		n++
+		v := tb.Of(ci.Common().Args[2])
+		ptrForm := func(t *Term) bool {
+			return t.Is("Call", "(reflect.Value).Addr") || (t.Is("Call", "reflect.ValueOf") && len(t.Args) == 1 && t.Args[0].Op == "Alloc")
+		}
+		ok := false
+		if v.Op == "Phi" {
+			hasPtr, hasPlain := false, false
+			for _, a := range v.Args {
+				if ptrForm(a) {
+					hasPtr = true
+				} else {
+					hasPlain = true
+				}
+			}
+			ok = hasPtr && hasPlain
+		}
+		r.Check(ok, rule, "processUnfiltered->SetMapIndex", p.InstrPos(ci), "the value stored back is a pointer when the map held a pointer", "the value stored back ("+v.String()+") has one representation only although pointer values are dereferenced before filtering: a map of pointers (map[string]*string, map[string]*wrapperspb.StringValue) makes reflect panic inside Process, and an interface-valued map has its entry's dynamic type changed from *T to T")
+	}
+	if n < 5 {
+		r.Und(rule, "instance-floor", "", fmt.Sprintf("only %d SetMapIndex calls found in processUnfiltered (5 confirmed by hand)", n))
 	}
 }
